@@ -57,8 +57,14 @@ def gen_history(ctx, rng):
             ops.append(("upd", rng.randint(0, nf), None, rng.random() < 0.5, method))
         elif r < 0.9:
             ops.append(("upd", None, ("TAU", rng.random()), rng.random() < 0.5, method))   # resolved against the magnitudes at run time
-        elif r < 0.95:
+        elif r < 0.93:
             ops.append(("upd", nf + rng.randint(1, 3), None, False, method))
+        elif r < 0.96:
+            how = rng.choice(["labels_one_short", "nan_measurement", "single_class"])
+            if rng.random() < 0.6:
+                ops.append(("updbad", rng.randint(0, nf), None, method, how))
+            else:
+                ops.append(("updbad", None, rng.choice([0.0, 0.25, 0.5, 1.0]), method, how))
         else:
             ops.append(("fit", rng.random() < 0.5))
     return S.SHistory(basis, nm, ctor_ns, ctor_thr, X, y, ops, inject)
@@ -109,6 +115,16 @@ def oracle(ctx, h, real_out, idx):
     """selection laws recomputed from sensor_coef_ (independent of the Lean model)"""
     prev_by_n = None
     for i, (op, (status, obs)) in enumerate(zip(h.ops, real_out)):
+        if op[0] == "updbad" and obs.get("fitted"):
+            # whether the refit went through or the classifier refused the data, the reported count is the number of selected sensors
+            ctx.count("update_with_refused_refit_data:" + ("accepted" if status == "ok" else status))
+            sel = obs["sel"]
+            if obs["ns"] != len(sel) or len(set(sel)) != len(sel):
+                ctx.violation("concrete", f"SSPOC call {i} {op} ({status}): n_sensors={obs['ns']} but {len(sel)} sensors selected ({sel})",
+                              {"signature": "selection-law:n_sensors-not-count-after-refused-refit", "history": h.describe(), "call": i, "index": idx})
+                return False
+            prev_by_n = None
+            continue
         if status != "ok" or not obs.get("fitted"):
             prev_by_n = None if op[0] in ("fit", "updm") else prev_by_n
             continue
